@@ -22,7 +22,7 @@ plus a held-lock test (another process holds flock: nothing may be appended mean
 
 A violation is reported only if it reproduces on two further executions of the same run (otherwise inconclusive/`unreproducible`).
 Slack: files left in tmp/ ("may attempt to unlink"); exit status / roll-back after a failing flock; EINTR and short writes may be
-retried. Left to the lead: systematic interleavings of concurrent deliveries through VSHIM_GATE (only real-time concurrency
+retried. Systematic interleavings of concurrent deliveries run through props/c12_gate.py (gate scheduler). In this file only real-time concurrency (was: left to the lead
 here); ftruncate faults (would need two faults in one run); a generated intermediate truncation length for mbox crash images
 (mbox crash images are unconstrained anyway)."""
 import os, re, json, errno, fcntl, threading, time, shutil
@@ -712,6 +712,10 @@ def run(ctx):
     jobs = [(tree, i, vlib.subseed(ctx.seed, "c12", i), per, ctx.tier, fixed[i::nw]) for i in range(nw)]
     ctx.stats.merge(vlib.run_workers(worker, jobs))
     ctx.notes["fixed_inputs"] = len(fixed)
+    # systematic interleavings of concurrent deliveries under the gate scheduler (props/c12_gate.py, added by the lead)
+    if ctx.only is None or "gate" in ctx.only:
+        from props import c12_gate
+        c12_gate.run_gate(ctx, tree)
     if not ctx.stats.violations:
         need = ["mode_golden", "mode_crash", "mode_kill", "mode_fault", "mode_collide", "kind_maildir", "kind_mbox", "msg_from_or_partial",
                 "sender_space_tab_nl", "conc_mbox_2", "conc_mbox_3", "conc_maildir_2", "conc_maildir_3", "heldlock"] + \
@@ -723,6 +727,16 @@ def run(ctx):
 
 
 def replay(ctx, path):
+    j0 = json.load(open(path))
+    sc0 = j0.get("scenario", j0)
+    if isinstance(sc0, dict) and "kind" in sc0 and "msgs" in sc0 and "tape" in sc0:
+        from props import c12_gate
+        sandbox.ensure_shim()
+        return c12_gate.replay_gate(vlib.Tree().make("qmail-local"), sc0)
+    return _replay(ctx, path)
+
+
+def _replay(ctx, path):
     sandbox.ensure_shim()
     tree = vlib.Tree().make("qmail-local")
     sc = json.load(open(path))
